@@ -49,7 +49,8 @@ def run(R, env):
     Mr = resolve_terms(prog, M, env.depth)
     R.info("C04.R1", "M (inlined) = " + fmt(Mr)[:400])
     # the current staked total as seen by the mint computation: loaded value or 0 after the sweep
-    cur = lambda t: all(tnt(a) or zero(a) for a in alts_of(t)) and any(tnt(a) for a in alts_of(t))
+    # (the value AFTER the ownerless-stake sweep: the loaded total, or zero where the sweep ran)
+    cur = lambda t: all(tnt(a) or zero(a) for a in alts_of(t)) and any(tnt(a) for a in alts_of(t)) and any(zero(a) for a in alts_of(t))
     good = True
     why = ""
     alts = alts_of(Mr)
